@@ -101,7 +101,8 @@ def decode_optional(parent, name, type_, data, pos, endianness, len_hints):
     value, _ = type_._optional_type._decode(data, pos, endianness)
     opt_alignment = type_._OPTIONAL_ALIGNMENT
     if value:
-        setattr(parent, name, True)
+        if codec_kind.is_composite(type_):
+            setattr(parent, name, True)
         sub_type = type_.__bases__[0]
         pos += opt_alignment
         return opt_alignment + type_._decode(parent, name, sub_type, data, pos, endianness, len_hints)
